@@ -127,3 +127,34 @@ func enterFuncShape(f *ast.File) bool {
 	}
 	return true
 }
+
+// predeclareShape reports whether compilePkgs enters the names of a package's functions into the table of globals
+// before it compiles the package (the Resolve model's `predeclare`): the loop over the packages starts with
+// declareFuncs(g, tok), and declareFuncs creates the key <export>.<name> for every "function" node of the package.
+func predeclareShape(f *ast.File) bool {
+	cp, df := findFunc(f, "compilePkgs"), findFunc(f, "declareFuncs")
+	if cp == nil || df == nil {
+		return false
+	}
+	first := ""
+	ast.Inspect(cp.Body, func(n ast.Node) bool {
+		if r, ok := n.(*ast.RangeStmt); ok && first == "" && len(r.Body.List) > 0 {
+			first = squash(src(r.Body.List[0]))
+			return false
+		}
+		return true
+	})
+	if first != "declareFuncs(g,tok)" {
+		return false
+	}
+	body := squash(src(df.Body))
+	for _, want := range []string{
+		`iftok.Symbol=="package"&&len(tok.Tokens)>0&&tok.Tokens[len(tok.Tokens)-1].Text!=""{export=tok.Tokens[len(tok.Tokens)-1].Text+"."`,
+		`for_,tok:=rangepkg.Tokens{iftok.Symbol=="function"&&len(tok.Tokens)>0{g.Index(export+tok.Tokens[0].Text)}}`,
+	} {
+		if !strings.Contains(body, want) {
+			return false
+		}
+	}
+	return true
+}
